@@ -120,6 +120,18 @@ func GenReplyOpt(t *rapid.T, id int, marker string, allowDecl bool, opt ReplyOpt
 		fmt.Fprintf(&body, "<marker>%s</marker>", marker)
 	}
 
+	// a big reply: kilobytes of other content in front of or behind what matters
+	pad := ""
+	if opt.Big && rapid.IntRange(0, 29).Draw(t, "big") == 0 {
+		pad = fmt.Sprintf("<pad>%s</pad>", strings.Repeat("0123456789abcdef", rapid.IntRange(620, 700).Draw(t, "padN")))
+
+		if rapid.Bool().Draw(t, "padFirst") {
+			body.WriteString(pad)
+
+			pad = ""
+		}
+	}
+
 	switch rapid.IntRange(0, 5).Draw(t, "replyKind") {
 	case 0:
 		body.WriteString("<ok/>")
@@ -149,9 +161,7 @@ func GenReplyOpt(t *rapid.T, id int, marker string, allowDecl bool, opt ReplyOpt
 		body.WriteString(GenXMLElem(t, 3))
 	}
 
-	if opt.Big && rapid.IntRange(0, 29).Draw(t, "big") == 0 {
-		fmt.Fprintf(&body, "<pad>%s</pad>", strings.Repeat("0123456789abcdef", rapid.IntRange(620, 700).Draw(t, "padN")))
-	}
+	body.WriteString(pad)
 
 	// further namespace declarations in front of the message-id: where in the message the id
 	// sits is not fixed
